@@ -116,4 +116,9 @@ def _c18():
             "replay_fn": jk.replay_fn, "replay_file_fn": jk.replay_file}
 
 
-PROPS = {"C18": _c18, "C12": _c12, "C16": _c16, "C19": _c19, "C09": _c09, "C07": _c07, "C06": _c06, "C20": _c20, "C01": _c01, "C05": _c05}
+def _c04():
+    import lookup as lu
+    return {"builders": [lu.build], "level": "other", "explanation": "variable lookup: hint encoding round trip, innermost-first search (bounded), find(s, hint)"}
+
+
+PROPS = {"C04": _c04, "C18": _c18, "C12": _c12, "C16": _c16, "C19": _c19, "C09": _c09, "C07": _c07, "C06": _c06, "C20": _c20, "C01": _c01, "C05": _c05}
